@@ -143,7 +143,7 @@ def main():
     chk.total.validated = chk.total.evals
     chk.assumptions += ["stub kernel; row identity is encoded in P; an exception from a documented option combination counts as a failure to deliver the columns",
                         "for the iterative sampler a ValueError/RuntimeError (library too small, no sample accepted) is not a log-prob matter and is left to C14"]
-    return chk.finish()
+    return chk.finish(run_case)
 
 
 def replay(doc):
